@@ -12,7 +12,7 @@ from ..common import codes, Violation
 
 ID = "C13"
 LEVEL = "exploration"
-RULE = ("Cases: 'roundtrip': a sequence of 1..8 records of alternating classes (JsonRecord with recursive JSON values incl. any text "
+RULE = ("Cases: 'roundtrip': a sequence of 1..12 records of alternating classes (class-level writer/buffer/caches reset at the start of each case) (JsonRecord with recursive JSON values incl. any text "
         "with line breaks/quotes/backslashes/non-BMP, ints up to +-10^40, finite floats, bools, None, lists, dicts; CSVRecord/TSVRecord "
         "with (int,float,str), (str,), (str,str,int) layouts and strings without line breaks but with delimiters, tabs, quotes, "
         "leading/trailing blanks, empty string, NUL, U+2028); oracle load(save(r))==r and save(r) minus one trailing line terminator "
@@ -255,7 +255,24 @@ def run_file(case, ctx):
         ctx.nontrivial = True
 
 
+def reset_class_state():
+    """every case starts from the state of a fresh interpreter (writers, shared buffer, field caches), so that a case is a
+    pure function of its own record sequence and replays are exact; sharing across classes is exercised inside a case"""
+    for holder, name in ((F.CSVRecord, "_writer"), (F.Record, "_class_fields_cache"), (F.Record, "_class_fields_types_cache")):
+        d = getattr(holder, name, None)
+        if isinstance(d, dict):
+            d.clear()
+    io_ = getattr(F.CSVRecord, "_res_io", None)
+    if io_ is not None and hasattr(io_, "truncate"):
+        try:
+            io_.seek(0)
+            io_.truncate(0)
+        except Exception:  # noqa
+            pass
+
+
 def run_case(case, ctx):
+    reset_class_state()
     (run_roundtrip if case["kind"] == "roundtrip" else run_file)(case, ctx)
 
 
@@ -276,7 +293,7 @@ def strategies(tier):
         return st.tuples(*[field[c] for c in LAYOUT[name]]).map(list)
 
     spec = st.sampled_from(sorted(CLASSES)).flatmap(lambda n: st.tuples(st.just(n), vals(n)).map(list))
-    roundtrip = st.fixed_dictionaries({"kind": st.just("roundtrip"), "records": st.lists(spec, min_size=1, max_size=8)})
+    roundtrip = st.fixed_dictionaries({"kind": st.just("roundtrip"), "records": st.one_of(st.lists(spec, min_size=1, max_size=4), st.lists(spec, min_size=4, max_size=12))})
     EDIT = ["set", "del", "insert", "append", "pop", "get", "insert", "get"]
     file_case = st.sampled_from(sorted(CLASSES)).flatmap(lambda n: st.fixed_dictionaries({
         "kind": st.just("file"), "cls": st.just(n), "records": st.lists(vals(n), max_size=6), "extra": st.lists(vals(n), min_size=1, max_size=3),
